@@ -575,16 +575,7 @@ class C09(Check):
         self.work = None
 
     def _workdir(self):
-        if self.work is None or self._pid != os.getpid():
-            base = os.environ.get('VERIF_SCRATCH')
-            if base:
-                os.makedirs(base, exist_ok=True)
-            self.work = tempfile.mkdtemp(prefix='verif-c09-', dir=base or (
-                '/dev/shm' if os.path.isdir('/dev/shm') else None))
-            self._pid = os.getpid()
-            import atexit
-            atexit.register(shutil.rmtree, self.work, True)
-        return self.work
+        return core.scratch_dir('c09')
 
     def gen(self, st, tier, index, total):
         rng = st('tasks')
